@@ -32,6 +32,7 @@ func runC18(c *core.Ctx) {
 	ruleDecodeExclusive(c)
 	ruleReaderImmutable(c)
 	rulePackageState(c)
+	ruleNoForeignAppend(c)
 }
 
 // accessesField lists the vertices of g that mention field `field` of pdf.Extractor.
@@ -550,6 +551,7 @@ func ruleReaderImmutable(c *core.Ctx) {
 			if ma == nil {
 				ma = core.NewMutAnalysis(c.Prog)
 				ma.ImplPkgs[core.ModulePath] = true
+				ma.AppendIsWrite = true
 				ma.ExemptTypes["pdf.scanner"] = "a scanner is created per call (rule fresh-scanner) and never stored in the Reader; its read position is its own state"
 			}
 			sf := ma.S.FuncValue(fn.Obj)
@@ -857,3 +859,63 @@ var _ = packages.NeedName
 
 // stores through Reader-reachable memory that are part of the design; key: method|function containing the store.
 var readerStoreJustified = map[string]string{}
+
+// ruleNoForeignAppend (C18-R7): append(x.f, ...) stores the new elements in
+// the spare capacity of x.f's backing array when there is room.  If the
+// result goes anywhere but back into x.f, the field still has its old length
+// and the next append(x.f, ...) — from another goroutine, if x is shared
+// like the security handler's key — writes the same memory.  In package pdf
+// every append whose first argument is a struct field is assigned back to
+// that field.
+func ruleNoForeignAppend(c *core.Ctx) {
+	c.Check("C18-R7", "pdf/append-to-fields", "every append to a struct field's slice is assigned back to the same field (no goroutine-shared backing array is written through a temporary)", func(o *core.Ob) {
+		pkg := c.Prog.Pkg("pdf")
+		n := 0
+		for _, fn := range c.Prog.Funcs(pkg) {
+			info := fn.Info()
+			assigned := map[*ast.CallExpr]ast.Expr{}
+			ast.Inspect(fn.Decl.Body, func(m ast.Node) bool {
+				if as, ok := m.(*ast.AssignStmt); ok && len(as.Lhs) == len(as.Rhs) {
+					for i, r := range as.Rhs {
+						if call, ok := ast.Unparen(r).(*ast.CallExpr); ok {
+							assigned[call] = as.Lhs[i]
+						}
+					}
+				}
+				return true
+			})
+			ast.Inspect(fn.Decl.Body, func(m ast.Node) bool {
+				call, ok := m.(*ast.CallExpr)
+				if !ok || len(call.Args) < 2 {
+					return true
+				}
+				id, ok := call.Fun.(*ast.Ident)
+				if !ok || id.Name != "append" {
+					return true
+				}
+				if _, isB := info.ObjectOf(id).(*types.Builtin); !isB {
+					return true
+				}
+				sel, ok := ast.Unparen(call.Args[0]).(*ast.SelectorExpr)
+				if !ok {
+					return true
+				}
+				if f, ok := info.ObjectOf(sel.Sel).(*types.Var); !ok || !f.IsField() {
+					return true
+				}
+				n++
+				o.Count(1)
+				lhs := assigned[call]
+				if lhs == nil || c.Prog.Src(lhs) != c.Prog.Src(sel) {
+					where := "used as a value"
+					if lhs != nil {
+						where = "assigned to " + c.Prog.Src(lhs)
+					}
+					o.FailAt(fn.Site(call, ""), "%s: %s is %s, not stored back into %s: the appended elements are written into the field's shared backing array while the field keeps its length", c.Prog.Pos(call.Pos()), c.Prog.Src(call), where, c.Prog.Src(sel))
+				}
+				return true
+			})
+		}
+		o.Require(n >= 8, "only %d appends to fields found", n)
+	})
+}
